@@ -902,6 +902,12 @@ def run_impl(case):
         out["after"] = list(v.attr.items())
         out["calls"] = [enc_call(c) for c in calls]
         if case.get("expect") == "ok" and out["outcome"] == "ok":
+            # every call authenticates: after a successful unlock the same object still refuses a wrong passphrase
+            try:
+                v.unlock_with_phrase(case["pw"] + "\u00b7wrong")
+                out["wrong_after_right"] = "accepted"
+            except Exception:  # noqa: BLE001
+                out["wrong_after_right"] = "exc"
             # the same file on one object: a wrong passphrase first (refused, nothing changes), then the right one
             v2 = vmx.VMX.parse(case["vmx_text"])
             try:
@@ -1003,6 +1009,9 @@ class UnlockSuite(Suite):
             elif after != spec_after:
                 fs.append(Finding("impl_vs_spec", f"{label}: unlocked dictionary differs from attr + parse(cfg): "
                                   f"{_dict_diff(after, spec_after)}", "vmx:unlock:roundtrip:dict"))
+            if i_out == "ok" and impl_res.get("wrong_after_right") == "accepted":
+                fs.append(Finding("impl_vs_spec", f"{label}: after a successful unlock the same object accepted a wrong passphrase",
+                                  "vmx:unlock:retry:wrong-after-right"))
             if i_out == "ok" and "retry" in impl_res:
                 if impl_res["retry_wrong"] != "exc":
                     fs.append(Finding("impl_vs_spec", f"{label}: a wrong passphrase was accepted on a fresh object",
